@@ -78,4 +78,40 @@ theorem C02_schedule_independent (p : Program) (cfg : Cfg) (H : BodyFn) (hwf : W
     heapOfLog p cfg H (run (graphOf p cfg) F ag1 ts1).log = heapOfLog p cfg H (run (graphOf p cfg) F ag2 ts2).log := by
   rw [C02_final p cfg H hwf hrf ag1 ts1 hq1, C02_final p cfg H hwf hrf ag2 ts2 hq2]
 
+/-! ### Non-vacuity -/
+
+/-- `P(i)`, i = 0, 2: RW on tile i, passes its copy to `T(i)` (RW, in place), which names tile i as its final output -/
+def ex : Program :=
+  { globals := [],
+    classes := [{ name := "P", locals := [.range ⟨.const 0, .const 2, .const 2⟩], isParam := [true], place := .var 0, prio := none,
+                  flows := [{ access := .rw, ins := [⟨none, .coll (.var 0), none⟩],
+                              outs := [⟨none, .task 1 0 [.one (.var 0)], none⟩] }] },
+                { name := "T", locals := [.range ⟨.const 0, .const 2, .const 2⟩], isParam := [true], place := .var 0, prio := none,
+                  flows := [{ access := .rw, ins := [⟨none, .task 0 0 [.one (.var 0)], none⟩],
+                              outs := [⟨none, .coll (.var 0), none⟩] },
+                            { access := .write, ins := [⟨none, .new, none⟩], outs := [⟨none, .coll (.bin .add (.var 0) (.const 1)), none⟩] }] }] }
+
+def exH : BodyFn := fun cls f env ins => cls + 10 * f + 100 * env.length + ins.sum
+
+example : WellFormed ex = true := by decide
+set_option maxRecDepth 8000 in
+example : raceFreeB (graphOf ex {}) (nodeDs ex {} exH) = true := by decide
+example : RaceFree (graphOf ex {}) (nodeDs ex {} exH) :=
+  C02_racefree_of_check ex {} exH (by decide) (by set_option maxRecDepth 8000 in decide)
+-- the program is not trivially race free: `P(0)` and `T(0)` conflict (same copy, both write) and are ordered by the edge
+def confl (ds : List NodeD) (i j : Nat) : Option Bool := (ds[i]?).bind fun a => (ds[j]?).map fun b => a.conflict b
+set_option maxRecDepth 8000 in
+example : confl (nodeDs ex {} exH) 0 2 = some true ∧ confl (nodeDs ex {} exH) 0 1 = some false := by decide
+def exSched : List Tr := [.start 1, .finish 1, .release 1 3, .start 3, .again 3, .start 0, .start 3, .finish 0,
+  .release 0 2, .start 2, .finish 3, .finish 2]
+set_option maxRecDepth 8000 in
+example : (run (graphOf ex {}) (fun _ _ => 0) [0, 0, 0, 1] exSched).pending = [] ∧
+    (run (graphOf ex {}) (fun _ _ => 0) [0, 0, 0, 1] exSched).status = List.replicate 4 .ended ∧
+    endOrder (run (graphOf ex {}) (fun _ _ => 0) [0, 0, 0, 1] exSched).log = [1, 0, 3, 2] := by decide
+-- what the sequential interpreter computes: tile 0 is updated in place by `P(0)` then `T(0)`; tile 1 receives the copy of
+-- `T(0)`'s fresh flow; `T(0)` saw what `P(0)` left
+set_option maxRecDepth 8000 in
+example : seqRun ex {} exH (.tile 0) = 1201 ∧ seqRun ex {} exH (.tile 1) = 1211 ∧ seqRun ex {} exH (.tile 5) = 1005 ∧
+    seqRun ex {} exH (.obs 2 0) = seqRun ex {} exH (.out 0 0) := by decide
+
 end ParsecVerif.C02
